@@ -156,7 +156,22 @@ def run_one(src, P):
     if timpl and inits and inits[0].const_value is not None:
         t = inits[0].const_value
         if timpl == 1:
-            inits[0].const_value = ir.serde.TensorProtoTensor(ir.serde.serialize_tensor(t))
+            tp = ir.serde.serialize_tensor(t)
+            for k_, v_ in (("tk", "tv"), ("tk2", "tv2")):       # the proto already carries metadata ...
+                e_ = tp.metadata_props.add()
+                e_.key, e_.value = k_, v_
+            pt = ir.serde.TensorProtoTensor(tp)
+            tmeta = operator.index(P["tmeta"])                  # ... which is then edited through the IR object
+            if tmeta == 1:
+                pt.metadata_props["tk"] = "changed"
+            elif tmeta == 2:
+                del pt.metadata_props["tk2"]
+            elif tmeta == 3:
+                pt.metadata_props.clear()
+            elif tmeta == 4:
+                pt.metadata_props["added"] = "new"
+            obs["tensor_metadata_edit"] = ["none", "change", "delete", "clear", "add"][tmeta]
+            inits[0].const_value = pt
         elif timpl == 2:
             inits[0].const_value = ir.LazyTensor(lambda t=t: t, dtype=t.dtype, shape=t.shape, name=t.name)
         elif timpl == 3:
@@ -212,18 +227,18 @@ def run_one(src, P):
     return (not problems), dict(problems=problems, **obs)
 
 
-RANGES = dict(op=(-1, len(EDIT_OPS) - 1), gi=(0, 1), a=(0, 5), b=(-1, 2), c=(-1, 1), d=(0, 12), share=(-1, 3), timpl=(0, 3), irv=(3, 13), meta=(0, 1), alias=(0, 2))
+RANGES = dict(op=(-1, len(EDIT_OPS) - 1), gi=(0, 1), a=(0, 5), b=(-1, 2), c=(-1, 1), d=(0, 12), share=(-1, 3), timpl=(0, 3), irv=(3, 13), meta=(0, 1), alias=(0, 2), tmeta=(0, 4))
 
 
 def make_case(tier, key):
     src, group = key
     ranges = dict(RANGES)
     if group == "edits":
-        ranges.update(share=(-1, -1), timpl=(0, 0), irv=(10, 10), meta=(0, 0), alias=(0, 0), op=(0, len(EDIT_OPS) - 1))
+        ranges.update(share=(-1, -1), timpl=(0, 0), irv=(10, 10), meta=(0, 0), alias=(0, 0), tmeta=(0, 0), op=(0, len(EDIT_OPS) - 1))
     elif group == "variations":
         ranges.update(op=(-1, -1), gi=(0, 0), a=(0, 0), b=(0, 0), c=(0, 0), d=(0, 0))
     else:  # one edit then a shared tensor / other implementation
-        ranges.update(irv=(10, 10), meta=(0, 0), alias=(0, 0), a=(0, 3), b=(0, 1), c=(0, 1), d=(0, 1), share=(-1, 0), timpl=(0, 1))
+        ranges.update(irv=(10, 10), meta=(0, 0), alias=(0, 0), tmeta=(0, 0), a=(0, 3), b=(0, 1), c=(0, 1), d=(0, 1), share=(-1, 0), timpl=(0, 1))
 
     def body(P):
         return run_one(src, P)
